@@ -62,6 +62,17 @@ def isHeaderObj : V → Bool
 /-- kinds whose MatchField-typed fields are written as 4-byte header words, not as TLVs -/
 def headerOnly : List String := ["NXActionRegLoad", "NXActionRegMove", "NXActionOutputReg", "NXLearnSpecField"]
 
+/-- the fields of a struct that hold nested elements: everything after the embedded header; a delete flow-mod carries
+    no instructions and a delete group-mod no buckets on the wire (OpenFlow ignores them; the library omits them) -/
+def childFields (k : String) (fs : List V) : List V :=
+  let rest := match fs with
+    | h :: t => if isHeaderObj h then t else fs
+    | [] => []
+  match k, fs with
+  | "FlowMod", _ :: _ :: _ :: _ :: .num cmd :: _ => if cmd = 3 ∨ cmd = 4 then rest.dropLast else rest
+  | "GroupMod", _ :: .num cmd :: _ => if cmd = 2 then rest.dropLast else rest
+  | _, _ => rest
+
 partial def shapeOf (v : V) : List String :=
   match v with
   | .list xs => (xs.map shapeOf).flatten
@@ -82,7 +93,7 @@ partial def shapeOf (v : V) : List String :=
         [if vendor = 0x2320 then s!"nxt {et}" else if vendor = 0x4f4e4600 then s!"onf {et}" else s!"exp {vendor} {et}"]
       | _, _ => []
     let kids := if k = "MatchField" ∨ k = "Header" ∨ headerOnly.contains k then [] else
-      ((fs.filter (fun f => ¬ isHeaderObj f)).map shapeOf).flatten
+      ((childFields k fs).map shapeOf).flatten
     own ++ extra ++ kids
   | _ => []
 
@@ -176,7 +187,7 @@ partial def elemsOf (v : V) : List (String × V) :=
           fs.getLast?.getD .nil)]
       | _, _ => []
     let kids := if k = "MatchField" ∨ k = "Header" ∨ headerOnly.contains k then [] else
-      ((fs.filter (fun f => ¬ isHeaderObj f)).map elemsOf).flatten
+      ((childFields k fs).map elemsOf).flatten
     own ++ extra ++ kids
   | _ => []
 
